@@ -474,3 +474,14 @@ Qed.
 Lemma max_ctr_sub ds ds' a : (∀ d, d ∈ ds → dactor d = a → d ∈ ds') → max_ctr ds a <= max_ctr ds' a.
 Proof. intros Hs. apply max_ctr_le_iff. intros d Hd Ha. apply max_ctr_ge; [|done]. by apply Hs. Qed.
 
+
+Print Assumptions mohist_km_maphist.
+Print Assumptions mohist_km_shape.
+Print Assumptions mo_step_km.
+Print Assumptions mo_v4_step_km.
+Print Assumptions gdef_omerge.
+Print Assumptions mmerge_entry_km.
+Print Assumptions mfold_vrel_gen.
+Print Assumptions mmerge_entries_vrel.
+Print Assumptions kmF_unnamed.
+Print Assumptions kmF_named.
